@@ -126,7 +126,8 @@ def gen_state(rng, n, tier):
             ops += base
             if extra == "shuffled+reads":
                 # exactly one kind of variation per history, so that a differing root is attributed to it
-                variant = r.choice(["shuffle", "reopen", "evict", "reads", "overwritten", "noop-account-write", "balance-by-delta", "balance-by-delta"])
+                variant = r.choice(["shuffle", "reopen", "evict", "reads", "overwritten", "noop-account-write", "balance-by-delta", "balance-by-delta",
+                                    "reverted-write", "reverted-write"])
                 if variant == "balance-by-delta" and not any(t[1] == "bal" for t in c):
                     variant = "shuffle"
                 if variant == "reopen" and hbase:
@@ -144,6 +145,25 @@ def gen_state(rng, n, tier):
                         ops.append(f"set {t[0]} {t[2]} {r.choice(VALS)}")
                         if r.random() < 0.3:
                             ops.append(f"del {t[0]} {t[2]}")
+                elif variant == "reverted-write":
+                    # a failed transaction (snapshot, writes, revert) is no change at all; its target may have been read before
+                    a = r.choice(ACCTS)
+                    if r.random() < 0.5:
+                        ops.append(f"bal {a}")
+                        ops.append("finalise")
+                    ops.append("snap")
+                    k = r.random()
+                    if k < 0.3:
+                        c0 = r.choice(list(CODES))
+                        ops.append(f"setcode {a} {c0} {CODES[c0]}")
+                    elif k < 0.6:
+                        ops.append(f"setbal {a} {r.choice([1, 5, 100])}")
+                    elif k < 0.8:
+                        ops.append(f"setnonce {a} {r.choice([1, 7])}")
+                    else:
+                        ops.append(f"set {a} {r.choice(KEYS)} {r.choice(VALS)}")
+                    ops.append("revert 0")
+                    ops.append("finalise")
                 elif variant == "noop-account-write":
                     # an account write that leaves the account as it is must not matter
                     a = r.choice(ACCTS)
